@@ -243,7 +243,8 @@ fn parse_replacement_text<S: TexlangState>(
 ) -> txl::Result<Vec<texmacro::Replacement>> {
     // TODO: could we use a pool of vectors to avoid some of the allocations here?
     let mut result = vec![];
-    let mut scope_depth = 0;
+    // A 64-bit counter: the depth is bounded only by the number of tokens in the input.
+    let mut scope_depth = 0_i64;
     let push = |result: &mut Vec<texmacro::Replacement>, token| match result.last_mut() {
         Some(texmacro::Replacement::Tokens(tokens)) => {
             tokens.push(token);
